@@ -897,6 +897,12 @@ fn targets(l: &Layout, a: &Arena, allowed_too: bool) -> Vec<Target> {
             v.push(Target::Abs(en.wrapping_add(k as u64)));
         }
         v.push(Target::Abs(st.wrapping_add(1 << 63)));
+        // 2^32 away from an in-bounds byte in both directions: an index or offset computed in 32 bits
+        for k in [0u64, 1, 7] {
+            v.push(Target::Abs(st.wrapping_add(1 << 32).wrapping_add(k)));
+            v.push(Target::Abs(st.wrapping_sub(1 << 32).wrapping_add(k)));
+            v.push(Target::Abs(st.wrapping_add(0x1_0000_0000_0000).wrapping_add(k)));
+        }
         // inside a large region: around the 2^15 and 2^16 marks
         for mid in [0x8000u64, 0x10000] {
             if en - st > mid + 16 {
